@@ -272,6 +272,9 @@ def check(repo, rep):
         cs = [e[1] for e in l.effects if e[0] == 'call' and e[1][0] == 'call' and e[1][1][0] == 'attr' and e[1][1][1] == ('self',)]
         names = [c[1][2] for c in cs]
         ok = 'send' in names and 'join' in names and names.index('send') < names.index('join') and pr.isstop(cs[names.index('send')][2][0]) and not l.conds
+        if 'join' in names:
+            jc = cs[names.index('join')]
+            rep.ob('F7: stop() waits for the worker without a time limit (a bounded join lets the caller go on while the worker still runs)', not jc[2] and not jc[3], cx.where(st[0], st[2]), 'Worker.stop:bounded-join', 'join call is %s' % show(jc))
         rep.ob('F7: stop() = send(stop marker) and then join() (joining first would wait forever)', ok, cx.where(st[0], st[2]), 'Worker.stop', 'calls %s' % [show(c)[:50] for c in cs], sample=dict(stop=[show(c)[:50] for c in cs]))
     sa_ = cx.model.find_method(MOD, tk, 'start_all')
     if sa_ is None:
